@@ -110,7 +110,7 @@ func genScript(rt *rapid.T, transport string) Script {
 	s := Script{Transport: transport}
 	s.Version = rapid.SampledFrom([]string{"2024-11-05", "2025-03-26", "2025-03-26", "2025-06-18", "2025-11-25"}).Draw(rt, "version")
 	batchOK := s.Version < "2025-06-18"
-	s.Spell = rapid.SampledFrom([]int{0, 0, 0, 0, 1, 2, 3, 4}).Draw(rt, "spell")
+	s.Spell = rapid.SampledFrom([]int{0, 0, 0, 0, 1, 2, 3, 4, 5}).Draw(rt, "spell")
 	if transport == "ndjson" {
 		s.WriteLagUs = rapid.SampledFrom([]int{0, 0, 0, 500}).Draw(rt, "write_lag")
 	}
